@@ -492,6 +492,7 @@ async fn step_inner(w: &mut World, l: &[Tok], start: SystemTime) -> Vec<Vec<Tok>
             lines.push(vec![399]);
             lines
         }
+        20..=32 => crate::fam_api::step_api(w, op, &mut c, start).await,
         _ => bad,
     };
     out
